@@ -226,7 +226,11 @@ def op_if(stack, items):
             num_endifs_needed += 1
             current_array.append(item)
         elif num_endifs_needed == 1 and item == 103:
-            current_array = false_items
+            # every OP_ELSE at this level switches branch again
+            if current_array is true_items:
+                current_array = false_items
+            else:
+                current_array = true_items
         elif item == 104:
             if num_endifs_needed == 1:
                 found = True
@@ -262,7 +266,11 @@ def op_notif(stack, items):
             num_endifs_needed += 1
             current_array.append(item)
         elif num_endifs_needed == 1 and item == 103:
-            current_array = false_items
+            # every OP_ELSE at this level switches branch again
+            if current_array is true_items:
+                current_array = false_items
+            else:
+                current_array = true_items
         elif item == 104:
             if num_endifs_needed == 1:
                 found = True
